@@ -287,6 +287,28 @@ pub fn groups_files(alph: bool, groups: &[u32]) -> Vec<(String, Vec<u8>)> {
         .collect()
 }
 
+/// animations of `n` one-pixel frames (the first and every fourth one lossless, so that every file pays the constant
+/// cost of one bit buffer; the others lossy): what webpsan holds must not follow `n`
+pub fn frames_files(ns: &[u32]) -> Vec<(String, Vec<u8>)> {
+    let lossless: Vec<u8> = vec![0x2f, 0, 0, 0, 0, 0x88, 0x88, 0x08];
+    ns.iter()
+        .map(|&n| {
+            let mut chunks = vec![chunk(b"VP8X", &vp8x_payload(0x02, 1, 1)), chunk(b"ANIM", &[0; 6])];
+            for i in 0..n {
+                let mut p = vec![0u8; 12];
+                p.extend_from_slice(&[1, 0, 0, 0]);
+                if i % 4 == 0 {
+                    p.extend(chunk(b"VP8L", &lossless));
+                } else {
+                    p.extend(chunk(b"VP8 ", VP8_DATA));
+                }
+                chunks.push(chunk(b"ANMF", &p));
+            }
+            (format!("{n}frames"), riff(&chunks))
+        })
+        .collect()
+}
+
 pub fn emit_webp_scale_files<W: Write>(out: &mut W, id: &str, files: &[(String, Vec<u8>)]) {
     let mut rs = vec![];
     for (label, f) in files {
@@ -306,7 +328,10 @@ pub fn replay<W: Write>(line: &str, out: &mut W) {
     let get = |k: &str| line.split(' ').find_map(|t| t.strip_prefix(&format!("{k}=")).map(|s| s.to_string()));
     let s = Sparse::parse_line(&get("len").unwrap(), &get("ext").unwrap());
     let id = get("id").unwrap_or("replay".into());
-    if get("san").as_deref() == Some("webpscale") && get("runs").unwrap_or_default().contains("groups:") {
+    if get("san").as_deref() == Some("webpscale") && get("runs").unwrap_or_default().contains("frames:") {
+        let ns: Vec<u32> = get("runs").unwrap_or_default().split(';').filter_map(|t| t.split(':').next()?.strip_suffix("frames")?.parse().ok()).collect();
+        emit_webp_scale_files(out, &id, &frames_files(&ns));
+    } else if get("san").as_deref() == Some("webpscale") && get("runs").unwrap_or_default().contains("groups:") {
         let groups: Vec<u32> = get("runs").unwrap_or_default().split(';').filter_map(|t| t.split(':').next()?.strip_suffix("groups")?.parse().ok()).collect();
         emit_webp_scale_files(out, &id, &groups_files(id.contains("alph"), &groups));
     } else if get("san").as_deref() == Some("webpscale") {
@@ -506,6 +531,26 @@ pub fn run<W: Write>(opts: &Opts, out: &mut W) {
         emit_mp4(out, &format!("mp4-gap-{gap}"), &s, &Cfg { max: 4096, cum: None }, Kind::Seekable, &media, &mut r);
     }
 
+    // very many top-level boxes (empty free / skip boxes, 8 bytes each) around the media: the peak heap must not follow
+    // their number (a sanitizer that remembers something per box holds n x something)
+    for (k, n) in [(0u64, 30000u64), (1, 12000)] {
+        if !opts.mine(30 + k) {
+            continue;
+        }
+        let mut media = vec![];
+        let mut s = Sparse::new();
+        let mut r = rng.fork(616161 + k);
+        s.push(&bx(b"ftyp", &ftyp_payload(&mut r, true, 2, 0), Enc::S32));
+        for i in 0..n {
+            if i == n / 2 {
+                push_sized(&mut s, b"mdat", 1 << 16, &mut media);
+            }
+            s.push(&bx(if i % 2 == 0 { b"free" } else { b"skip" }, &[], Enc::S32));
+        }
+        let t = rand_trak(&mut r, 2, false);
+        s.push(&bx(b"moov", &moov_payload(&mut r, &[t], false), Enc::S32));
+        emit_mp4(out, &format!("mp4-many-boxes-{n}"), &s, &Cfg { max: 4096, cum: None }, if k == 0 { Kind::Seekable } else { Kind::Strict }, &media, &mut r);
+    }
     // several movie boxes, each close to the limit: only the last one counts, and the peak heap must not follow their
     // number (a sanitizer that keeps the earlier ones alive holds n x limit)
     for (k, (n, max)) in [(12u64, 1u64 << 16), (40, 1 << 14), (6, 1 << 20), (24, 1 << 16)].into_iter().enumerate() {
@@ -590,6 +635,11 @@ pub fn run<W: Write>(opts: &Opts, out: &mut W) {
     }
     if opts.mine(5) {
         emit_webp_scale_files(out, "webp-groups-alph-scale", &groups_files(true, groups));
+    }
+    // the number of animation frames is chosen by the input as well
+    if opts.mine(9) {
+        let ns: &[u32] = if opts.tier_thorough { &[1, 16, 256, 4096, 20000] } else { &[1, 16, 256, 3000] };
+        emit_webp_scale_files(out, "webp-frames-scale", &frames_files(ns));
     }
     for (k, g) in [2u32, 64, 1000].iter().enumerate() {
         if opts.mine(6 + k as u64) {
